@@ -45,8 +45,14 @@ def names(calls):
 def handlers(fn):
     """[(try node, handler dict, swallows?)] — a handler swallows when it neither rethrows nor throws."""
     out = []
+    unwinding = set()
     for n in ir.walk(fn["body"]):
-        if n.get("k") == "Try":
+        if n.get("k") == "Try" and n.get("synthetic"):
+            for h in n.get("handlers", []):
+                for x in ir.walk(h.get("body")):
+                    unwinding.add(id(x))
+    for n in ir.walk(fn["body"]):
+        if n.get("k") == "Try" and id(n) not in unwinding:
             for h in n.get("handlers", []):
                 throws = any(x.get("k") == "Throw" for x in ir.walk(h.get("body")))
                 out.append((n, h, not throws))
